@@ -166,7 +166,7 @@ func Run(h History, or Oracles) (fails []Fail, st RunStats, err error) {
 		}
 		if ack {
 			st.Acks++
-			if or.AckRestore {
+			if or.AckRestore && e.bgDone == nil { // with a live writer the source keeps moving: compare at the next quiet acknowledgement
 				if v := e.CheckRestoreEqualsSource(); v != "" {
 					sig := "ack-restore-differs"
 					if strings.HasPrefix(v, "RESTORE-ERROR") {
@@ -397,12 +397,30 @@ func GenC01(r *hx.Rand, thorough bool) History {
 				h.Ops = append(h.Ops, Op{K: "rbegin"})
 			}
 			reader = !reader
-		case x < 95:
+		case x < 94:
 			h.Ops = append(h.Ops, Op{K: "close"}, Op{K: "up"})
-		case x < 97:
+		case x < 96:
 			h.Ops = append(h.Ops, Op{K: "snap"})
-		default:
+		case x < 98:
 			h.Ops = append(h.Ops, Op{K: "compact", A: 1 + r.Intn(2)})
+		default:
+			// litestream works while an application transaction is in flight or a writer is committing
+			if r.Bool() {
+				h.Ops = append(h.Ops, Op{K: "cwhold", A: 40 + r.Intn(200), B: 100})
+			} else {
+				h.Ops = append(h.Ops, Op{K: "cw", A: 4 + r.Intn(10), B: []int{10, h.Cfg.PageSize}[r.Intn(2)]})
+			}
+			for j, m := 0, 1+r.Intn(3); j < m; j++ {
+				switch y := r.Intn(10); {
+				case y < 4:
+					h.Ops = append(h.Ops, Op{K: "lckpt", S: []string{"PASSIVE", "PASSIVE", "FULL", "RESTART", "TRUNCATE"}[r.Intn(5)]})
+				case y < 8:
+					h.Ops = append(h.Ops, Op{K: "sync"})
+				default:
+					h.Ops = append(h.Ops, Op{K: "snap"})
+				}
+			}
+			h.Ops = append(h.Ops, Op{K: "cwait"}, Op{K: "syncwait"})
 		}
 	}
 	if reader {
